@@ -10,6 +10,7 @@ use ::std::ops::Deref;
 use core::marker::PhantomData;
 use vstd::std_specs::ops::*;
 use vstd::std_specs::convert::*;
+//@include ../_shared/std_transpose.rs
 
 // ------------------------------------------------------------------------------------------
 // anyhow façade: `Result<T>`, `Error`, `.context(..)`  (message text not modelled, rule R5)
@@ -98,13 +99,28 @@ impl<T> Mutex<T> {
     /// holding the guard; the only code that runs under these two guards is `chain_body` and the
     /// controller's `progress()`/`finalize_many`/`inspect`, so A-nopoison follows from C13.1 for
     /// all chains + A-controller.)
+    /// ghost HISTORY relation: some `lock()` / `try_lock()` on this mutex handed out a guard over the value `a`,
+    /// and the guard was released with the value `b`.  It is introduced ONLY by the postconditions of the two
+    /// functions below (`*final(guard)` is the value at the end of the guard's life), so a function can state
+    /// "I did lock this mutex and left THIS behind" without a ghost parameter.  A relation, not a function: any
+    /// number of lock() calls stay consistent.
+    pub uninterp spec fn released(&self, a: T, b: T) -> bool;
     #[verifier::external_body]
     pub fn lock(&self) -> (r: core::result::Result<&mut T, PoisonError>)
         ensures
             r is Ok,                    // A-nopoison
             self.inv(*(r->Ok_0)),
+            self.released(*(r->Ok_0), *final(r->Ok_0)),
+    { unimplemented!() }
+    /// std::sync::Mutex::try_lock: ARBITRARY outcome (WouldBlock whenever another thread holds the guard)
+    #[verifier::external_body]
+    pub fn try_lock(&self) -> (r: core::result::Result<&mut T, TryLockError>)
+        ensures
+            r is Ok ==> self.inv(*(r->Ok_0)) && self.released(*(r->Ok_0), *final(r->Ok_0)),
     { unimplemented!() }
 }
+#[derive(Debug)]
+pub struct TryLockError {}
 
 pub enum TryRecvError { Empty, Disconnected }
 pub struct RecvError {}
@@ -126,13 +142,41 @@ impl<T> Receiver<T> {
     #[verifier::external_body]
     pub fn try_recv(&self) -> (r: core::result::Result<T, TryRecvError>) { unimplemented!() }
     #[verifier::external_body]
-    pub fn recv(&self) -> (r: core::result::Result<T, RecvError>) { unimplemented!() }
+    pub fn recv(&self) -> (r: core::result::Result<T, RecvError>)
+        ensures r is Ok ==> self.may_deliver(r->Ok_0),
+    { unimplemented!() }
     #[verifier::external_body]
     pub fn recv_timeout(&self, timeout: Duration) -> (r: core::result::Result<T, RecvTimeoutError>)
         ensures r is Ok ==> self.may_deliver(r->Ok_0),
     { unimplemented!() }
 }
+pub struct SendError<T> { pub m: T }
+/// std::sync::mpsc::{SyncSender, Sender}::send: ARBITRARY outcome (Err when the receiver is gone).  Ghost history
+/// relation `sent(m)`: a send of `m` on this channel returned Ok; introduced only by `send` itself.
 pub struct SyncSender<T> { pub _t: PhantomData<T> }
+impl<T> SyncSender<T> {
+    pub uninterp spec fn sent(&self, m: T) -> bool;
+    #[verifier::external_body]
+    pub fn send(&self, m: T) -> (r: core::result::Result<(), SendError<T>>)
+        ensures r is Ok ==> self.sent(m),
+    { unimplemented!() }
+}
+pub struct Sender<T> { pub _t: PhantomData<T> }
+impl<T> Sender<T> {
+    pub uninterp spec fn sent(&self, m: T) -> bool;
+    #[verifier::external_body]
+    pub fn send(&self, m: T) -> (r: core::result::Result<(), SendError<T>>)
+        ensures r is Ok ==> self.sent(m),
+    { unimplemented!() }
+}
+/// anyhow: `impl<E: std::error::Error> From<E> for anyhow::Error` as used by `?` (no spec: an error is an error)
+impl<T> From<SendError<T>> for anyhow::Error {
+    #[verifier::external_body]
+    fn from(e: SendError<T>) -> (r: anyhow::Error) { unimplemented!() }
+}
+/// `anyhow::anyhow!(..)` / `bail!(..)` (rule R5: message text not modelled)
+#[verifier::external_body]
+pub fn opaque_error() -> (r: anyhow::Error) { unimplemented!() }
 /// core::mem::drop: no sequential effect (dropping `commands` disconnects the command channel,
 /// which makes the controller leave its loop: a concurrency effect, out of scope)
 pub assume_specification<T>[ ::core::mem::drop::<T> ](_0: T);
@@ -267,6 +311,15 @@ pub trait ChainStorage: Sized {
         info: &Progress,
     ) -> (r: Result<()>)
         ensures final(self).record_faults() == old(self).record_faults() + (if r is Err { 1nat } else { 0nat });
+    /// ghost history predicate: a `flush()` of a storage in THIS state returned Ok (introduced only by `flush`)
+    spec fn flush_ok(&self) -> bool;
+    /// arbitrary outcome (what the Zarr implementation writes is decided by units zarrbuf / zarrflow)
+    fn flush(&self) -> (r: Result<()>)
+        ensures r is Ok ==> self.flush_ok();
+}
+/// nuts_rs::storage::TraceStorage: only the associated chain-storage type is used here
+pub trait TraceStorage: Sized {
+    type ChainStorage: ChainStorage;
 }
 
 // ------------------------------------------------------------------------------------------
